@@ -372,6 +372,108 @@ fn main() {
         }
         report.inc("f80_init_calls");
     }
+    // (0a) fresh threads: a thread whose very first library call converts a "sentinel-looking" bit pattern (all ones,
+    // all zeros, only the sign bit, everything but the sign bit, NaNs with unusual payloads ...); whatever the crate keeps
+    // per thread starts from its initial state there. Events go to the same log.
+    {
+        let patterns: [u64; 18] = [
+            u64::MAX, u64::MAX - 1, 0x7FFF_FFFF_FFFF_FFFF, 0x8000_0000_0000_0000, 0, 1, 0x8000_0000_0000_0001, 0x7FF8_0000_0000_0000,
+            0xFFF8_0000_0000_0000, 0x7FF0_0000_0000_0001, 0xFFF0_0000_0000_0001, 0x7FF0_0000_0000_0000, 0xFFF0_0000_0000_0000,
+            0x000F_FFFF_FFFF_FFFF, 0x0010_0000_0000_0000, 0x3FF0_0000_0000_0000, 0xBFF0_0000_0000_0000, 0x7FEF_FFFF_FFFF_FFFF,
+        ];
+        for (k, &bits) in patterns.iter().enumerate() {
+            let other = patterns[(k * 7 + 3) % patterns.len()];
+            let h = std::thread::spawn(move || {
+                let (cw, _sw, _tag) = x87_env();
+                let mut r = Rec { out: String::new(), events: 0, cw0: cw, state_violations: Vec::new(), state_checks: 0 };
+                let res = catch(|| {
+                    let x = r.cvt(f64::from_bits(bits));
+                    r.back(x);
+                    r.rel_alias(x);
+                    let y = r.cvt(f64::from_bits(other));
+                    r.all_ops(x, y, true);
+                    let x2 = r.cvt(f64::from_bits(bits));
+                    r.rel(x, x2);
+                    r.back(x2);
+                });
+                (r, res.err(), cw)
+            });
+            match h.join() {
+                Ok((r, err, cw)) => {
+                    if cw != cw0 {
+                        report.inconclusive(format!("a fresh thread starts with x87 control word {:#06x}, the main thread with {:#06x}", cw, cw0));
+                    }
+                    rec.out.push_str(&r.out);
+                    rec.events += r.events;
+                    rec.state_checks += r.state_checks;
+                    rec.state_violations.extend(r.state_violations);
+                    report.inc("fresh_thread_first_conversions");
+                    if let Some(p) = err {
+                        if p.in_lib {
+                            report.violation("panic", Json::obj().set("what", "the library panicked on the first conversion of a fresh thread").set("bits", format!("{:#018x}", bits)).set("panic", p.msg.as_str()), vec![]);
+                        } else {
+                            report.inconclusive(format!("harness panic at {}:{}: {}", p.file, p.line, p.msg));
+                        }
+                    }
+                }
+                Err(_) => report.inconclusive("a fresh-thread worker died".to_string()),
+            }
+        }
+    }
+    // (0b) the same conversions on eight threads at once: f64 -> f80 -> f64 is the identity for every non-NaN double, so
+    // each thread checks its own results without a shared oracle; the value of a conversion depends on its operand alone
+    {
+        let nthreads = 8usize;
+        let rounds = if thorough { 2_000_000u64 } else { 150_000 };
+        let barrier = std::sync::Arc::new(std::sync::Barrier::new(nthreads));
+        let hs: Vec<_> = (0..nthreads)
+            .map(|t| {
+                let b = barrier.clone();
+                std::thread::spawn(move || {
+                    // powers of two share their significand: neighbouring threads convert 2^k, 2^(k+1), ...
+                    let vals: Vec<f64> = (0..16).map(|i| f64::from_bits(((1023 + (t as u64 + i) % 12) << 52) | if i % 4 == 3 { 0x0008_0000_0000_0000 * (t as u64 % 2) } else { 0 })).collect();
+                    let conv: Vec<f80> = vals.iter().map(|&v| f80::from(v)).collect();
+                    b.wait();
+                    let mut bad: Option<(u64, u64)> = None;
+                    let mut n = 0u64;
+                    for r in 0..rounds {
+                        let i = (r % 16) as usize;
+                        let got: f64 = f64::from(conv[i]);
+                        n += 1;
+                        if got.to_bits() != vals[i].to_bits() && bad.is_none() {
+                            bad = Some((vals[i].to_bits(), got.to_bits()));
+                        }
+                        if r % 64 == 0 {
+                            let again = f80::from(vals[i]);
+                            if hex80(again) != hex80(conv[i]) && bad.is_none() {
+                                bad = Some((vals[i].to_bits(), 0));
+                            }
+                        }
+                    }
+                    (n, bad)
+                })
+            })
+            .collect();
+        for h in hs {
+            match h.join() {
+                Ok((n, bad)) => {
+                    report.count("concurrent_round_trip_conversions", n);
+                    if let Some((want, got)) = bad {
+                        report.violation(
+                            "to_f64:concurrent",
+                            Json::obj()
+                                .set("what", "f64::from(f80::from(x)) != x for a finite double while other threads convert other values (alone the same conversion is exact)")
+                                .set("x_bits", format!("{:#018x}", want))
+                                .set("got_bits", format!("{:#018x}", got))
+                                .set("threads", nthreads),
+                            vec![],
+                        );
+                    }
+                }
+                Err(_) => report.violation("panic", Json::obj().set("what", "a thread converting values concurrently panicked"), vec![]),
+            }
+        }
+    }
     let r = catch(|| {
         let set = boundary_set();
         // (1) all ordered pairs of the boundary set x all operators and relations
